@@ -62,6 +62,65 @@ func c01Dot(ids []int) string {
 
 // ---------------------------------------------------------------- controlled schedules
 
+// c01ParkReq is a parking request the verif-tag hook (zz_verif_c01_park_test.go) consumes: the goroutine that was
+// started for the call and reaches the named verifPoint is parked until `release` is closed. Requests are keyed by
+// goroutine id, so scripts (each with its own processor) can run in parallel.
+type c01ParkReq struct {
+	name    string
+	parked  chan struct{}
+	release chan struct{}
+}
+
+var c01Park sync.Map // goroutine id -> *c01ParkReq
+
+func c01Goid() int {
+	var buf [64]byte
+	n := runtime.Stack(buf[:], false)
+	f := strings.Fields(string(buf[:n]))
+	if len(f) < 2 {
+		return -1
+	}
+	id, _ := strconv.Atoi(f[1])
+	return id
+}
+
+// c01HookFn is installed as VerifPointFn by the verif-tagged file.
+func c01HookFn(name string) {
+	id := c01Goid()
+	if v, ok := c01Park.Load(id); ok {
+		req := v.(*c01ParkReq)
+		if req.name == name {
+			c01Park.Delete(id)
+			close(req.parked)
+			<-req.release
+		}
+	}
+}
+
+// c01ParkCall starts `call` in a goroutine after arming a parking request for `name`; it returns the request if the
+// goroutine parked there, or nil if the call went by without reaching the point (e.g. stopped was already set).
+func c01ParkCall(r *c01Run, name string, call func()) *c01ParkReq {
+	req := &c01ParkReq{name: name, parked: make(chan struct{}), release: make(chan struct{})}
+	done := make(chan struct{})
+	r.pending.Add(1)
+	go func() {
+		defer r.pending.Done()
+		defer close(done)
+		id := c01Goid()
+		c01Park.Store(id, req)
+		defer c01Park.Delete(id)
+		call()
+	}()
+	select {
+	case <-req.parked:
+		return req
+	case <-done:
+		return nil
+	case <-time.After(2 * time.Second):
+		return nil
+	}
+}
+
 type c01GateExp struct {
 	mu       sync.Mutex
 	log      [][]int
@@ -104,6 +163,9 @@ type c01Run struct {
 	ffRes   map[int]string // fid -> p|o|e
 	sdRes   string         // n|p|o|e
 	pending sync.WaitGroup
+	pkSpan  map[int]*c01ParkReq
+	pkFF    map[int]*c01ParkReq
+	pkSd    *c01ParkReq
 }
 
 func (r *c01Run) obs() string {
@@ -175,7 +237,8 @@ func c01RunSched(capQ, maxB int, blocking bool, ops []string, win time.Duration)
 		opts = append(opts, WithBlocking())
 	}
 	bsp := NewBatchSpanProcessor(exp, opts...).(*batchSpanProcessor)
-	r := &c01Run{bsp: bsp, exp: exp, ended: map[int]bool{}, ffRes: map[int]string{}, sdRes: "n"}
+	r := &c01Run{bsp: bsp, exp: exp, ended: map[int]bool{}, ffRes: map[int]string{}, sdRes: "n",
+		pkSpan: map[int]*c01ParkReq{}, pkFF: map[int]*c01ParkReq{}}
 	out := []string{}
 	for _, op := range ops {
 		switch {
@@ -185,6 +248,76 @@ func c01RunSched(capQ, maxB int, blocking bool, ops []string, win time.Duration)
 			exp.mu.Unlock()
 			if in {
 				exp.gate <- (op == "g+")
+			}
+		case op == "sp": // Shutdown parked right after it stored `stopped`
+			r.mu.Lock()
+			first := r.sdRes == "n"
+			if first {
+				r.sdRes = "p"
+			}
+			r.mu.Unlock()
+			if first {
+				r.pkSd = c01ParkCall(r, "bsp.Shutdown.stored", func() {
+					err := bsp.Shutdown(context.Background())
+					r.mu.Lock()
+					if err == nil {
+						r.sdRes = "o"
+					} else {
+						r.sdRes = "e"
+					}
+					r.mu.Unlock()
+				})
+			}
+		case op == "sr":
+			if r.pkSd != nil {
+				close(r.pkSd.release)
+				r.pkSd = nil
+			}
+		case strings.HasPrefix(op, "fp"): // ForceFlush parked right after its stopped check
+			fid, _ := strconv.Atoi(op[2:])
+			r.mu.Lock()
+			r.ffRes[fid] = "p"
+			r.mu.Unlock()
+			if req := c01ParkCall(r, "bsp.ForceFlush.checked", func() {
+				err := bsp.ForceFlush(context.Background())
+				r.mu.Lock()
+				if err == nil {
+					r.ffRes[fid] = "o"
+				} else {
+					r.ffRes[fid] = "e"
+				}
+				r.mu.Unlock()
+			}); req != nil {
+				r.pkFF[fid] = req
+			}
+		case strings.HasPrefix(op, "fr"):
+			fid, _ := strconv.Atoi(op[2:])
+			if req := r.pkFF[fid]; req != nil {
+				close(req.release)
+				delete(r.pkFF, fid)
+			}
+		case op[0] == 'p': // OnEnd parked right after its stopped check
+			id, _ := strconv.Atoi(op[1:])
+			reached := make(chan bool, 1)
+			req := c01ParkCall(r, "bsp.OnEnd.checked", func() {
+				bsp.OnEnd(c01Span(id, true))
+				// the call reached the hook iff it passed the stopped check: only then is it an accepted End, and it has
+				// "returned" (model: `seen`) once the send or drop is done
+				if <-reached {
+					r.mu.Lock()
+					r.ended[id] = true
+					r.mu.Unlock()
+				}
+			})
+			reached <- req != nil
+			if req != nil {
+				r.pkSpan[id] = req
+			}
+		case op[0] == 'r' && len(op) > 1:
+			id, _ := strconv.Atoi(op[1:])
+			if req := r.pkSpan[id]; req != nil {
+				close(req.release)
+				delete(r.pkSpan, id)
 			}
 		case op == "s":
 			r.mu.Lock()
@@ -240,6 +373,15 @@ func c01RunSched(capQ, maxB int, blocking bool, ops []string, win time.Duration)
 			}()
 		}
 		out = append(out, r.settle(win))
+	}
+	for _, req := range r.pkSpan {
+		close(req.release)
+	}
+	for _, req := range r.pkFF {
+		close(req.release)
+	}
+	if r.pkSd != nil {
+		close(r.pkSd.release)
 	}
 	// clean up: release every blocked exporter call, shut down, wait for our goroutines (goleak TestMain)
 	done := make(chan struct{})
